@@ -24,7 +24,7 @@ from vizier._src.pyvizier.shared import parameter_config as pcl  # noqa: E402
 from vizier._src.pyvizier.shared import base_study_config as bsc  # noqa: E402
 from vizier._src.pyvizier.shared import common  # noqa: E402
 
-EXCLUDED = {('Metric', 'std'), ('Measurement', 'checkpoint_path'), ('Trial', 'related_links')}
+EXCLUDED = {('Metric', 'std'), ('Measurement', 'checkpoint_path'), ('Trial', 'related_links'), ('EarlyStopDecisions', 'metadata')}
 TEXT_ONLY = {('Trial', 'stopping_reason')}        # transmitted as present/absent only (the text is documented as lost)
 MICRO = {('Measurement', 'elapsed_secs')}
 
@@ -201,7 +201,27 @@ def build_pc(d):
     return pcl.ParameterConfig.factory(d.get('name', 'p'), **kw)
 
 
-BUILDERS = {'Trial': build_trial, 'MetricInformation': build_metric_information, 'ParameterConfig': build_pc,
+def build_suggestion(d):
+    t = trial_lib.TrialSuggestion(parameters={k: dec(v) for k, v in d.get('parameters', [])})
+    for ns, k, v in d.get('metadata', []):
+        t.metadata.abs_ns(common.Namespace(tuple(ns)))[k] = v
+    return t
+
+
+def build_study_state(d):
+    from vizier._src.pyvizier.pythia import study as study_lib
+    return study_lib.StudyState[d['state']]
+
+
+def build_earlystop_decisions(d):
+    from vizier._src.pythia import policy
+    ds = [policy.EarlyStopDecision(id=int(e['id']), reason=e['reason'], should_stop=bool(e['should_stop']),
+                                   predicted_final_measurement=None if e.get('predicted_final_measurement') is None
+                                   else build_measurement(e['predicted_final_measurement'])) for e in d.get('decisions', [])]
+    return policy.EarlyStopDecisions(decisions=ds)
+
+
+BUILDERS = {'Trial': build_trial, 'TrialSuggestion': build_suggestion, 'EarlyStopDecisions': build_earlystop_decisions, 'StudyState': build_study_state, 'MetricInformation': build_metric_information, 'ParameterConfig': build_pc,
             'ConditionalParameterConfig': build_pc}
 
 
@@ -219,6 +239,9 @@ def converters(kind, x):
 
 
 CONVERTERS = {'Trial': lambda x: (pc.TrialConverter.to_proto, pc.TrialConverter.from_proto),
+              'TrialSuggestion': lambda x: (pc.TrialSuggestionConverter.to_proto, pc.TrialSuggestionConverter.from_proto),
+              'StudyState': lambda x: (pc.StudyStateConverter.to_proto, pc.StudyStateConverter.from_proto),
+              'EarlyStopDecisions': lambda x: (pc.EarlyStopConverter.to_decisions_proto, pc.EarlyStopConverter.from_decisions_proto),
               'MetricInformation': lambda x: (pc.MetricInformationConverter.to_proto, pc.MetricInformationConverter.from_proto),
               'ParameterConfig': lambda x: (pc.ParameterConfigConverter.to_proto, pc.ParameterConfigConverter.from_proto),
               'ConditionalParameterConfig': lambda x: (pc.ParameterConfigConverter.to_proto, pc.ParameterConfigConverter.from_proto)}
@@ -257,20 +280,266 @@ def run_job(job):
 
 
 # ---------------------------------------------------------------------------------------- recorded findings (witnesses)
-FINDINGS = {
-    'nanos_dropped': {'kind': 'Measurement', 'clause': 'roundtrip.elapsed_secs',
-                      'x': {'metrics': [['a', '1.0', None]], 'elapsed_secs': '1.5', 'steps': 3}},
-}
+def load_findings():
+    """open entries of /verif/known_findings.d/C09.json: {obligation: witness job}"""
+    path = os.path.join(os.path.dirname(os.path.dirname(os.path.abspath(__file__))), 'known_findings.d', 'C09.json')
+    out = {}
+    if os.path.exists(path):
+        for e in json.load(open(path)).get('findings', []):
+            if e.get('status', 'open') == 'open' and isinstance(e.get('witness'), dict):
+                out[e['obligation']] = {k: v for k, v in e['witness'].items() if k != 'how'}
+    return out
+
+
+# ---------------------------------------------------------------------------------------- bounded stand-in: metadata
+def _any(n):
+    from google.protobuf import any_pb2, duration_pb2
+    a = any_pb2.Any()
+    a.Pack(duration_pb2.Duration(seconds=n))
+    return a
+
+
+def _md_items(md):
+    """{(namespace tuple, key): value} over all namespaces (protos compared by serialisation)"""
+    out = {}
+    for ns, k, v in md.all_items():
+        out[(tuple(ns), k)] = v if isinstance(v, str) else ('<any>', v.SerializeToString())
+    return out
+
+
+def _md_build(entries):
+    md = common.Metadata()
+    for ns, k, v in entries:
+        md.abs_ns(common.Namespace(tuple(ns)))[k] = v
+    return md
+
+
+def _md_pool():
+    """entries (namespace, key, value) over separator / unicode / empty components (no component ends in a backslash:
+    the recorded C10 finding about Namespace.encode/decode)"""
+    nss = [(), ('a',), ('a', 'b:c'), ('',), ('\u00fc', 'x\\y'), (':',)]
+    keys = ['', 'k', 'k:2']
+    vals = ['', 'v', _any(3)]
+    pool = []
+    for i, ns in enumerate(nss):
+        for j, k in enumerate(keys):
+            pool.append((ns, k, vals[(i + j) % 3]))
+    return pool
+
+
+def _md_family():
+    import itertools
+    pool = _md_pool()
+    fam = [[]] + [[e] for e in pool]
+    fam += [list(c) for c in itertools.combinations(pool[::2], 2)]
+    fam += [[pool[0], pool[3], pool[4]], [pool[4], pool[0], pool[3]]]      # order of insertion
+    return fam
+
+
+def standin_metadata():
+    """exhaustive over the family above: MetadataDeltaConverter, make_key_value_list/from_key_value_list, and the metadata
+    field of Trial / TrialSuggestion; returns (cases, [counterexample records])"""
+    from vizier._src.pyvizier.oss import metadata_util
+    fam = _md_family()
+    bad, n = [], 0
+
+    def record(clause, desc, detail):
+        if len(bad) < 12:
+            bad.append({'clause': clause, 'input': desc, 'detail': detail})
+    for ents in fam:
+        desc = repr([(ns, k, v if isinstance(v, str) else '<Any>') for ns, k, v in ents])
+        md = _md_build(ents)
+        # key-value lists
+        n += 1
+        try:
+            kv = metadata_util.make_key_value_list(md)
+            back = metadata_util.from_key_value_list(kv)
+            if _md_items(back) != _md_items(md):
+                record('C09.KeyValueList.roundtrip.metadata', desc, repr(_md_items(back))[:300])
+            if [m.SerializeToString() for m in metadata_util.make_key_value_list(back)] != [m.SerializeToString() for m in kv]:
+                record('C09.KeyValueList.idempotent.metadata', desc, 'second conversion differs')
+        except Exception as e:  # noqa: BLE001
+            record('C09.KeyValueList.roundtrip.no_exception', desc, repr(e))
+        # Trial / TrialSuggestion metadata
+        for kind, mk, conv in (('Trial', lambda: trial_lib.Trial(id=1, description='d'), pc.TrialConverter),
+                               ('TrialSuggestion', lambda: trial_lib.TrialSuggestion(), pc.TrialSuggestionConverter)):
+            n += 1
+            try:
+                t = mk()
+                for ns, k, v in ents:
+                    t.metadata.abs_ns(common.Namespace(tuple(ns)))[k] = v
+                p = conv.to_proto(t)
+                y = conv.from_proto(p)
+                if _md_items(y.metadata) != _md_items(t.metadata):
+                    record('C09.%s.roundtrip.metadata' % kind, desc, repr(_md_items(y.metadata))[:300])
+                if list(conv.to_proto(y).metadata) != list(p.metadata):
+                    record('C09.%s.idempotent.metadata' % kind, desc, 'second conversion differs')
+            except Exception as e:  # noqa: BLE001
+                record('C09.%s.roundtrip.no_exception' % kind, desc, repr(e))
+    # metadata deltas: on_study x on_trials
+    small = [f for f in fam if len(f) <= 1][:8] + fam[-2:]
+    trial_sets = [{}, {1: small[1]}, {0: small[2], 7: small[-1]}, {3: small[3], 4: small[3]}, {12: small[5]}]
+    for s_ents in small:
+        for ts in trial_sets:
+            n += 1
+            desc = repr({'on_study': [(ns, k, v if isinstance(v, str) else '<Any>') for ns, k, v in s_ents],
+                         'on_trials': {i: [(ns, k, v if isinstance(v, str) else '<Any>') for ns, k, v in e] for i, e in ts.items()}})
+            try:
+                d = trial_lib.MetadataDelta(on_study=_md_build(s_ents))
+                for tid, ents in ts.items():
+                    for ns, k, v in ents:
+                        d.on_trials[tid].abs_ns(common.Namespace(tuple(ns)))[k] = v
+                protos = pc.MetadataDeltaConverter.to_protos(d)
+                y = pc.MetadataDeltaConverter.from_protos(protos)
+                if _md_items(y.on_study) != _md_items(d.on_study):
+                    record('C09.MetadataDelta.roundtrip.on_study', desc, repr(_md_items(y.on_study))[:300])
+                want = {tid: _md_items(m) for tid, m in d.on_trials.items() if _md_items(m)}
+                got = {tid: _md_items(m) for tid, m in y.on_trials.items() if _md_items(m)}
+                if want != got:
+                    record('C09.MetadataDelta.roundtrip.on_trials', desc, repr(got)[:300])
+                p2 = pc.MetadataDeltaConverter.to_protos(y)
+                if [m.SerializeToString() for m in p2] != [m.SerializeToString() for m in protos]:
+                    record('C09.MetadataDelta.idempotent.updates', desc, 'second conversion differs')
+            except Exception as e:  # noqa: BLE001
+                record('C09.MetadataDelta.roundtrip.no_exception', desc, repr(e))
+    return n, bad
+
+
+# ---------------------------------------------------------------------------------------- bounded stand-in: composite configs
+def _spaces():
+    """search spaces composed of parameters *outside* the witness classes of the recorded element findings (truthy
+    defaults, no UNIFORM_DISCRETE, conditional depth <= 1), so that only the composition is examined here"""
+    P, S, X = pcl.ParameterConfig.factory, pcl.ScaleType, pcl.ExternalType
+    flats = [
+        P('d', bounds=(0.0, 1.5), scale_type=S.LOG, default_value=0.5),
+        P('i', bounds=(-2, 5), default_value=3, external_type=X.INTEGER),
+        P('disc', feasible_values=[1.0, 2.5, 7.0], scale_type=S.REVERSE_LOG, external_type=X.FLOAT),
+        P('cat', feasible_values=['', 'a', 'b:c', '\u00fc'], default_value='a'),
+        P('bool', feasible_values=['False', 'True'], external_type=X.BOOLEAN),
+        P('0', bounds=(0.0, 0.0), scale_type=S.LINEAR),
+    ]
+    cond = P('root', feasible_values=['x', 'y'], children=[(['x'], P('cx', bounds=(0.0, 1.0))), (['x', 'y'], P('cxy', bounds=(1, 3))),
+                                                          (['y'], P('cy', feasible_values=[1.0, 2.0]))])
+    icond = P('iroot', bounds=(0, 2), children=[([0, 2], P('k', bounds=(0.0, 1.0), default_value=0.25))])
+    out = [[], [flats[0]], flats[:3], flats, [cond], [icond, flats[3]], list(reversed(flats))]
+    spaces = []
+    for pcs in out:
+        sp = pcl.SearchSpace()
+        for c in pcs:
+            sp.add(c)
+        spaces.append(sp)
+    return spaces
+
+
+def _metric_sets():
+    G, MI = bsc.ObjectiveMetricGoal, bsc.MetricInformation
+    return [[], [MI(name='', goal=G.MAXIMIZE)], [MI(name='a', goal=G.MINIMIZE), MI(name='b:c', goal=G.MAXIMIZE, safety_threshold=0.0)],
+            [MI(name='s', goal=G.MINIMIZE, safety_threshold=-1.5, desired_min_safe_trials_fraction=0.0),
+             MI(name='\u00fc', goal=G.MAXIMIZE, safety_threshold=2.0, desired_min_safe_trials_fraction=1.0)]]
+
+
+def _eq_problem(a, b):
+    return (a.search_space == b.search_space and list(a.metric_information) == list(b.metric_information)
+            and _md_items(a.metadata) == _md_items(b.metadata))
+
+
+def standin_configs():
+    from vizier._src.pythia import policy
+    from vizier._src.pyvizier.pythia import study as study_lib
+    from vizier._src.pyvizier.oss import study_config as sc
+    from vizier._src.pyvizier.oss import automated_stopping
+    bad, n = [], 0
+
+    def record(clause, desc, detail):
+        if len(bad) < 12:
+            bad.append({'clause': clause, 'input': desc, 'detail': detail})
+
+    def pair(clause, desc, x, to_p, from_p, eq, ser=lambda p: p.SerializeToString()):
+        nonlocal n
+        n += 1
+        try:
+            p = to_p(x)
+            y = from_p(p)
+            if not eq(x, y):
+                record('C09.%s.roundtrip' % clause, desc, repr(y)[:400])
+            if ser(to_p(y)) != ser(p):
+                record('C09.%s.idempotent' % clause, desc, 'second conversion differs')
+        except Exception as e:  # noqa: BLE001
+            record('C09.%s.roundtrip.no_exception' % clause, desc, repr(e)[:300])
+    mds = [_md_build(e) for e in _md_family()[:1] + _md_family()[1:19:6] + _md_family()[-2:]]
+    for si, sp in enumerate(_spaces()):
+        desc = 'search space #%d %r' % (si, [c.name for c in sp.parameters])
+        pair('SearchSpace', desc, sp, lambda s_: study_pb2_spec(s_), lambda p: pc.SearchSpaceConverter.from_proto(p), lambda a, b: a == b)
+        for mi, ms in enumerate(_metric_sets()):
+            for di, md in enumerate(mds if (si + mi) % 3 == 0 else mds[:2]):
+                d2 = desc + ' metrics #%d metadata #%d' % (mi, di)
+                ps = bsc.ProblemStatement(search_space=sp, metric_information=ms, metadata=md)
+                pair('ProblemStatement', d2, ps, pc.ProblemStatementConverter.to_proto, pc.ProblemStatementConverter.from_proto, _eq_problem)
+                sd = study_lib.StudyDescriptor(config=ps, guid='owners/o/studies/s%d' % di, max_trial_id=di * 7)
+                eq_sd = lambda a, b: _eq_problem(a.config, b.config) and a.guid == b.guid and a.max_trial_id == b.max_trial_id
+                pair('StudyDescriptor', d2, sd, pc.StudyDescriptorConverter.to_proto, pc.StudyDescriptorConverter.from_proto, eq_sd)
+                for count, ckpt in ((1, None), (2, ''), (5, 'dir/x')):
+                    rq = policy.SuggestRequest(study_descriptor=sd, count=count, checkpoint_dir=ckpt)
+                    eq_rq = lambda a, b: eq_sd(a._study_descriptor, b._study_descriptor) and a.count == b.count and (a.checkpoint_dir or None) == (b.checkpoint_dir or None)
+                    if count > 0:
+                        pair('SuggestRequest', d2 + ' count=%d' % count, rq, pc.SuggestConverter.to_request_proto, pc.SuggestConverter.from_request_proto, eq_rq)
+                for ids in (None, [], [1, 5]):
+                    er = policy.EarlyStopRequest(study_descriptor=sd, trial_ids=ids, checkpoint_dir='c' if ids else None)
+                    eq_er = lambda a, b: eq_sd(a._study_descriptor, b._study_descriptor) and (a.trial_ids or frozenset()) == (b.trial_ids or frozenset()) and (a.checkpoint_dir or None) == (b.checkpoint_dir or None)
+                    pair('EarlyStopRequest', d2 + ' ids=%r' % (ids,), er, pc.EarlyStopConverter.to_request_proto, pc.EarlyStopConverter.from_request_proto, eq_er)
+                for algo, noise, stop in (('RANDOM_SEARCH', sc.ObservationNoise.HIGH, None), ('', sc.ObservationNoise.OBSERVATION_NOISE_UNSPECIFIED, True),
+                                          ('my_algo', sc.ObservationNoise.LOW, True)):
+                    kw = {}
+                    if stop:
+                        kw['automated_stopping_config'] = automated_stopping.AutomatedStoppingConfig.default_stopping_spec()
+                    cfg = sc.StudyConfig(search_space=sp, metric_information=ms, metadata=md, algorithm=algo, observation_noise=noise, **kw)
+                    eq_cfg = lambda a, b: (_eq_problem(a, b) and a.algorithm == b.algorithm and a.observation_noise == b.observation_noise
+                                           and (a.automated_stopping_config is None) == (b.automated_stopping_config is None)
+                                           and a.pythia_endpoint == b.pythia_endpoint)
+                    pair('StudyConfig', d2 + ' algo=%r' % algo, cfg, lambda c: c.to_proto(), sc.StudyConfig.from_proto, eq_cfg)
+    # suggest decisions: suggestions + metadata delta
+    for ents in _md_family()[:12:3]:
+        for params in ({}, {'a': 1.5, 'b': 'x', 'c': True, '': 0}):
+            sg = trial_lib.TrialSuggestion(parameters=params, metadata=_md_build(ents))
+            for k in (0, 1, 2):
+                dl = trial_lib.MetadataDelta(on_study=_md_build(ents))
+                if k:
+                    dl.on_trials[k].abs_ns(common.Namespace(('n',)))['key'] = 'v'
+                dec_ = policy.SuggestDecision(suggestions=[sg] * k, metadata=dl)
+                eq_dec = lambda a, b: (len(a.suggestions) == len(b.suggestions)
+                                       and all(x.parameters == y.parameters and _md_items(x.metadata) == _md_items(y.metadata) for x, y in zip(a.suggestions, b.suggestions))
+                                       and _md_items(a.metadata.on_study) == _md_items(b.metadata.on_study)
+                                       and {t: _md_items(m) for t, m in a.metadata.on_trials.items() if _md_items(m)} == {t: _md_items(m) for t, m in b.metadata.on_trials.items() if _md_items(m)})
+                pair('SuggestDecision', 'k=%d params=%r' % (k, params), dec_, pc.SuggestConverter.to_decision_proto, pc.SuggestConverter.from_decision_proto, eq_dec)
+    return n, bad
+
+
+def study_pb2_spec(space):
+    from vizier._src.service import study_pb2
+    return study_pb2.StudySpec(parameters=pc.SearchSpaceConverter.parameter_protos(space))
 
 
 def main(argv):
     if argv and argv[0] == 'findings':
         ok = True
-        for name, job in FINDINGS.items():
-            res, rep = run_job(job)
-            print(json.dumps({'finding': name, 'reproduced': rep, 'result': res}, default=repr))
+        for name, job in load_findings().items():
+            try:
+                res, rep = run_job(job)
+            except Exception as e:  # noqa: BLE001
+                res, rep = {'error': repr(e)}, False
+            print(json.dumps({'finding': name, 'reproduced': bool(rep), 'result': res}, default=repr)[:1500])
             ok = ok and rep
         print('REPRODUCED' if ok else 'NOT-REPRODUCED')
+        return 0
+    if argv and argv[0] == 'standin_metadata':
+        n, bad = standin_metadata()
+        print(json.dumps({'cases': n, 'counterexamples': bad}, default=repr))
+        print('REPRODUCED' if bad else 'NOT-REPRODUCED')
+        return 0
+    if argv and argv[0] == 'standin_configs':
+        n, bad = standin_configs()
+        print(json.dumps({'cases': n, 'counterexamples': bad}, default=repr))
+        print('REPRODUCED' if bad else 'NOT-REPRODUCED')
         return 0
     if argv and argv[0] == '--json':
         job = json.loads(argv[1])
